@@ -87,5 +87,9 @@ package h265reader
 //@ ensures err == nil ==> ret0 != nil && len(ret0.Data) >= 1
 //@ ensures err == nil && len(ret0.Data) >= 2 ==> ret0.NalUnitType == NalUnitType((ret0.Data[0] & 0x7E) >> 1)
 //@ ensures err == nil && !old(reader.includeSEI) ==> NalUnitType((ret0.Data[0] & 0x7E) >> 1) != NalUnitTypePrefixSei && NalUnitType((ret0.Data[0] & 0x7E) >> 1) != NalUnitTypeSuffixSei
+// The scanning loop is left only because the stream gave out (read error or short read) or
+// with a complete, non-empty unit that is not to be skipped: so the end-of-stream return for
+// a trailing SEI unit cannot swallow the units that follow a skipped one.
+//@ loop 0 break err != nil || n != 1 || (len(reader.nalBuffer) >= 1 && (reader.includeSEI || (NalUnitType((reader.nalBuffer[0] & 0x7E) >> 1) != NalUnitTypePrefixSei && NalUnitType((reader.nalBuffer[0] & 0x7E) >> 1) != NalUnitTypeSuffixSei)))
 //@ loop 0 invariant reader.stream != nil && reader.includeSEI == old(reader.includeSEI)
 //@ loop 0 invariant (forall k int :: int(ghost(rdpos)) - len(reader.readBuffer) <= k && k < int(ghost(rdpos)) ==> reader.readBuffer[k - (int(ghost(rdpos)) - len(reader.readBuffer))] == ufbyte("stream", k)) && ghost(rdpos) < 1<<62 && uint64(len(reader.readBuffer)) <= ghost(rdpos) && !sameobj(reader.readBuffer, reader.tmpReadBuf) && (reader.nalBuffer == nil || !sameobj(reader.nalBuffer, reader.readBuffer))
